@@ -1685,6 +1685,12 @@ fn static_damage(r: &mut Rng, g: &mut Generated, profile: Profile) -> Option<&'s
                 (" us🇺🇸 ", Some("garbage_invalid_ident"), 1),
                 (" 🏽gate ", Some("garbage_invalid_ident"), 1),
                 (" k❤ ", Some("garbage_invalid_ident"), 1),
+                // the same after a character the lexer does not know (a NUL, as in a partly
+                // zeroed block): "wherever it occurs"
+                (" \0 0x ", Some("garbage_prefixed_int"), 3),
+                ("\0\0 1e ", Some("garbage_exponent_float"), 3),
+                (" \0 b❤ ", Some("garbage_invalid_ident"), 3),
+                (" № 0o ", Some("garbage_prefixed_int"), 5),
                 (" \"open ", None, 0),
                 (" /* open ", None, 0),
                 (" é€§ ", None, 0),
